@@ -63,6 +63,11 @@ def _array_for(cfg, G):
     describe(da)
     fa = blk.create_data_array("feat", "t", data=-ref)
     describe(fa)
+    if _W["opts"].get("calibrated"):
+        # C15: reads through tags and features are calibrated like every other read (c0 + c1 * (x - origin), exact in double)
+        for arr in (da, fa):
+            arr.polynom_coefficients = [1.0, 2.0]
+            arr.expansion_origin = 0.5
     ia = blk.create_data_array("indexed", "t", data=np.arange(R * 2, dtype=np.float64).reshape((R, 2)) + 500.0)
     ua = blk.create_data_array("untagged", "t", data=np.arange(4, dtype=np.float64) + 900.0)
     tag = blk.create_tag("tag", "t", [0.0])
@@ -154,9 +159,10 @@ def replay_one(vec):
     res["classes"][cls] = 1
 
     want = None
+    cal = (lambda x: 1.0 + 2.0 * (x - 0.5)) if _W["opts"].get("calibrated") else (lambda x: x)
     if r["outcome"] == "data":
         sl = tuple(slice(d["lo"], d["hi"] + 1) for d in r["dims"])
-        want = ref[sl]
+        want = cal(ref[sl])
     past = any(d.get("past") for d in r["dims"])
 
     def judge(label, call, want_arr, outcome):
@@ -214,7 +220,7 @@ def replay_one(vec):
         _redescribed(objs, cfg, t, r, G, U, tag, rule, judge, want, res)
     feats = rnd.random() < 0.25
     if feats:
-        judge("tag_feature_tagged", lambda: tag.feature_data(0, rule), None if want is None else -want, r["outcome"])
+        judge("tag_feature_tagged", lambda: tag.feature_data(0, rule), None if want is None else cal(-ref[sl]), r["outcome"])
         judge("tag_feature_untagged", lambda: tag.feature_data(1, rule), objs["ua"][:], "data")
     # ---- MultiTag: the same region as row k of R positions ----
     R = objs["R"]
@@ -243,7 +249,7 @@ def replay_one(vec):
     lab = ("mtag1d" if oned else "mtag") + ("_intpos" if intpos else "")
     judge(lab, lambda: mt.tagged_data(k, 0, rule), want, r["outcome"])
     if feats:
-        judge(lab + "_feature_tagged", lambda: mt.feature_data(k, 0, rule), None if want is None else -want, r["outcome"])
+        judge(lab + "_feature_tagged", lambda: mt.feature_data(k, 0, rule), None if want is None else cal(-ref[sl]), r["outcome"])
         judge(lab + "_feature_indexed", lambda: mt.feature_data(k, 1, rule), objs["ia"][:][k:k + 1], "data")
         judge(lab + "_feature_untagged", lambda: mt.feature_data(k, 2, rule), objs["ua"][:], "data")
     return res
